@@ -1,8 +1,9 @@
 (* Property C15 — compiled numeric primitives compute exactly what Python computes.
    Only theorem statements closed by `exact`, each followed by Print Assumptions.
    All theorems quantify over ALL integers (Z): every short/long boundary is covered. *)
-From Coq Require Import ZArith Bool.
-From C15 Require Import Model Statement Proofs Proofs2 Proofs3 ProofsFixed.
+From Coq Require Import ZArith Bool List.
+From C15 Require Import Model Statement Proofs Proofs2 Proofs3 ProofsFixed ProofsErr.
+From Gen Require Import C15ErrKinds.
 Open Scope Z_scope.
 
 (* representation: tagging is invertible, well formed, and short exactly when the value fits 63 bits *)
@@ -179,6 +180,26 @@ Proof.
   discriminate G2.
 Qed.
 Print Assumptions fixed_width_shift_all_counts_refuted.
+
+(* error-value convention of the native-returning C primitives (table regenerated from /repo on every run) *)
+Theorem error_value_convention_sound : forall t r ret,
+  c_return t r = Some ret -> Some (caller_sees ErrMagicOverlapping t ret) = expected_seen r.
+Proof. exact overlapping_sound. Qed.
+Print Assumptions error_value_convention_sound.
+
+(* a primitive declared ERR_MAGIC takes the error path with no exception set when the result is the magic value,
+   and that value is a legitimate result (e.g. -113 % -200) *)
+Theorem err_magic_would_be_unsound : forall t,
+  (exists r ret, c_return t r = Some ret /\ expected_seen r = Some (SValue (fw_magic t)) /\
+                 caller_sees ErrMagic t ret = SErrorPathWithoutException) /\
+  (exists x y, in_range t x = true /\ in_range t y = true /\ fw_op t FMod x y = FOk (fw_magic t)).
+Proof. intro t. exact (conj (magic_unsound t) (magic_reachable t)). Qed.
+Print Assumptions err_magic_would_be_unsound.
+
+Theorem declared_error_kinds_sound :
+  forallb (fun e => errkind_sound (snd e)) err_table = true /\ (forall t, src_magic t = fw_magic t /\ src_magic_float = -113).
+Proof. exact (conj err_table_sound src_magic_matches). Qed.
+Print Assumptions declared_error_kinds_sound.
 
 (* hypotheses are satisfiable / boundary witnesses *)
 Example ex_add_boundary : tagged_add (tag (B62 - 1)) (tag 1) = Long B62.
